@@ -145,6 +145,25 @@ func checkResolvers(s string, report func(sig, what string, detail map[string]an
 		report("resolvers-disagree", "TenantIDs returned [t] but TenantID did not succeed with t", d())
 	}
 	// other entry points
+	if s != "" { // an empty header is "no org id" for the HTTP entry point
+		req := httptest.NewRequest("GET", "http://example/", nil)
+		req.Header.Set(user.OrgIDHeaderName, s)
+		var hid string
+		var hctx context.Context
+		var herr error
+		if p, st := vt.Recover(func() { hid, hctx, herr = tenant.ExtractTenantIDFromHTTPRequest(req) }); p != nil {
+			report("resolver-panic", "ExtractTenantIDFromHTTPRequest panicked", map[string]any{"input": s, "panic": fmt.Sprint(p), "stack": st})
+		} else {
+			if (herr == nil) != (errS == nil) || (herr == nil && hid != single) {
+				report("resolvers-disagree", "ExtractTenantIDFromHTTPRequest disagrees with TenantID on the same org id", map[string]any{"input": s, "http_id": hid, "http_err": fmt.Sprint(herr), "single": single, "single_err": fmt.Sprint(errS)})
+			}
+			if herr == nil {
+				if cid, err := tenant.TenantID(hctx); err != nil || cid != hid {
+					report("resolvers-disagree", "ExtractTenantIDFromHTTPRequest returned another identifier than TenantID resolves from the context it returned", map[string]any{"input": s, "http_id": hid, "context_id": cid})
+				}
+			}
+		}
+	}
 	if ids, err := tenant.TenantIDsFromOrgID(s); (err == nil) != (errM == nil) || (err == nil && fmt.Sprint(ids) != fmt.Sprint(multi)) {
 		report("resolvers-disagree", "TenantIDsFromOrgID disagrees with TenantIDs", d())
 	}
